@@ -209,6 +209,44 @@ def nowarm_scripts(pid, seed, fx):
     return out
 
 
+def spec_generated_scripts(pid, tier, seed, wd):
+    """Spec -> code: behaviours of System.tla generated by TLC (simulation mode) for the configurations of real
+    fixtures (spec/FixtureLayouts.tla), as scripts for the macro driver."""
+    thorough = tier == "thorough"
+    cfg = os.path.join(wd, "SystemSim.cfg")
+    depth = 24 if thorough else 16
+    write_cfg(cfg, "Spec", {"Quirks": set(), "Keys": {"1", "2", "3"}, "SimKeys": {"1", "2", "3"}, "MaxVer": 100000,
+                            "MaxHits": 100000, "SizesMem": {40}, "Sizes": {40, 64, 130}, "Depth": depth},
+              invariants=["Emit"])
+    meta = os.path.join(WORK, "meta_%s_sim" % pid)
+    shutil.rmtree(meta, ignore_errors=True)
+    n = 3000 if thorough else 500
+    p = sh(["timeout", "900", "tlc", "-workers", "1", "-simulate", "num=%d" % n, "-depth", str(depth * 2 + 4), "-seed", str(seed),
+            "-metadir", meta, "-cleanup", "-noGenerateSpecTE", "-config", cfg, os.path.join(SPEC, "SystemSim.tla")],
+           cwd=SPEC, env={"JAVA_TOOL_OPTIONS": "-Xss1g"}, timeout=1000, check=False)
+    shutil.rmtree(meta, ignore_errors=True)
+    scripts, seen = [], set()
+    for line in p.stdout.splitlines():
+        if not line.startswith('<<"SCRIPT", "'):
+            continue
+        body = line[len('<<"SCRIPT", "'):-3]
+        if body in seen:
+            continue
+        seen.add(body)
+        js = json.loads(body.replace('\\"', '"').replace('\\\\', '\\'))
+        ops = []
+        for o in js["ops"]:
+            o = dict(o)
+            if o["op"] == "call":
+                o["k"] = int(o["k"])
+            ops.append(o)
+        scripts.append({"id": 50000 + len(scripts), "fixtures": [js["fixture"]], "threads": 1, "ops": ops,
+                        "spec_final": js["final"]})
+    if not scripts:
+        raise ToolError("TLC simulation produced no behaviours:\n" + p.stdout[-1500:])
+    return scripts
+
+
 def run_macro_check(pid, tier, seed, wd):
     t_start = time.time()
     thorough = tier == "thorough"
@@ -235,6 +273,8 @@ def run_macro_check(pid, tier, seed, wd):
 
     # ------------------------------------------------------------------ 2. scripted + random histories
     scripts = scripts_for(pid, tier, seed, fx)
+    sim = spec_generated_scripts(pid, tier, seed, wd)
+    scripts += sim
     sp = os.path.join(wd, "scripts.jsonl")
     write_scripts(sp, scripts)
     tr = os.path.join(wd, "traces.ndjson")
@@ -268,10 +308,11 @@ def run_macro_check(pid, tier, seed, wd):
     for (i, l) in tv["drifts"][:10]:
         drift_notes.append("SPEC-DRIFT macro trace line=%d (%s)" % (l, i))
     ntr = len(scripts) + len(extra)
+    info["spec_generated_behaviours"] = len(sim)
     info["macro"] = {"traces": ntr, "events": tv["lines"], "drift": len(tv["drifts"]),
                      "monitor_failures": len(mine), "fresh_process_histories": len(extra)}
-    log("[%s] macro-level histories: %d traces / %d events validated by TLC; drift %d, monitor failures %d" %
-        (pid, ntr, tv["lines"], len(tv["drifts"]), len(mine)))
+    log("[%s] macro-level histories: %d traces (%d of them behaviours generated by TLC from System.tla) / %d events validated by TLC; drift %d, monitor failures %d" %
+        (pid, ntr, len(sim), tv["lines"], len(tv["drifts"]), len(mine)))
     with open(tr) as f:
         first = [json.loads(next(f)) for _ in range(4)]
     for e in first:
